@@ -1,5 +1,6 @@
 import SeliumModel.Client.KeepAlive
 import SeliumModel.Client.KeepAliveSM
+import SeliumModel.Client.SharedConn
 import Driver.Util
 namespace Driver.KeepAlive
 open Selium.KeepAlive Selium.Gen.KeepAlive
@@ -37,6 +38,12 @@ def run (t : List String) : String :=
     match outs.find? (· != .reconnected) with
     | some o => outText o
     | none => "ok"
+  | ["siblings", n, _m] =>
+    -- two streams of one client: after each cut both re-establish themselves (in either order) on the shared connection
+    let step := fun (acc : Selium.SharedConn.St × List String) (_ : Nat) =>
+      let s := Selium.SharedConn.run Selium.Gen.Connection.reconnectOnlyIfClosed (Selium.SharedConn.cut acc.1) [0, 1, 0]
+      (s, acc.2 ++ [if decide (Selium.SharedConn.working s 0) && decide (Selium.SharedConn.working s 1) then "ok" else "lost"])
+    ",".intercalate ((List.range (nat! n)).foldl step ({ regs := [0, 0] }, [])).2
   | [kind, n, m, _law] => run [kind, n, m]
   | [kind, n, m] =>
     let per := if kind = "replier" then replierBudgetPerOutage
